@@ -33,6 +33,7 @@ THEOREMS = [
     "Nix.C10.C10_other_properties_untouched",
     "Nix.C10.C10_reads_change_nothing",
     "Nix.C10.C10_refused_unchanged",
+    "Nix.C10.C10_any_refusal_unchanged_counterexample",
     "Nix.C10.C10_check_precedes_write",
     "Nix.C10.C10_wrong_or_mixed_refused",
     "Nix.C10.C10_bool_is_not_int",
@@ -57,6 +58,9 @@ ASSUMPTIONS = [
     "a refusal with ValueError (value of a class get_dtype does not know: None, bytes, complex, nested list) is "
     "modelled as the code behaves; the property's 'type error' clause is checked for candidates whose elements all "
     "belong to the four supported types",
+    "h5py refuses a text with an embedded NUL only after the dataset was resized (open known finding "
+    "C10-nul-text-after-resize; Lean witness C10_any_refusal_unchanged_counterexample); every other exception class "
+    "is proved to leave the section unchanged",
 ]
 TRUSTED_EXTRA = [
     "hand-written model lean/NixModel/Pure/PropVals.lean of property.py / section.py / datatype.py / container lookups",
@@ -74,8 +78,8 @@ MANIFEST = {
                   "whole section state after every call.",
     "level_note": "Trusted: Lean kernel; axioms propext/Classical.choice/Quot.sound; the hand-written model and the "
                   "harness. Partial: persistence across reopen and HDF5 storage behaviour are tied by correspondence "
-                  "only; names that parse as UUIDs break dictionary completeness (open known finding, "
-                  "C10_dict_complete_counterexample).",
+                  "only; a text with an embedded NUL is refused by h5py after the resize (open known finding "
+                  "C10-nul-text-after-resize, C10_any_refusal_unchanged_counterexample).",
     "technique": "Lean 4 proof (inductive invariant over operation histories, case analysis of the isinstance chain) "
                  "with differential correspondence on real HDF5 files",
 }
@@ -1129,6 +1133,13 @@ def check_history(ctx, ops, n, label):
                         if pid not in after or after[pid]["vals"] != p["vals"]:
                             fail("a type error changed stored values", k, after.get(pid, {}).get("vals"), p["vals"],
                                  "Property.values / extend_values")
+                if "err" in out and out["err"] != "TypeError":
+                    # whatever was raised, a failed store is not a store: the values last stored must still be there
+                    changed = len(st["props"]) != len(prev["props"]) or any(
+                        pid not in after or after[pid]["vals"] != p["vals"] for pid, p in before.items())
+                    if changed:
+                        fail("a refused call changed stored values", k, out["err"], "unchanged",
+                             "Property.values / extend_values / Section.create_property")
                 if target is not None and cl is not None and target["dtype"] in MAIN_DTYPES:
                     pk = KIND_OF_DTYPE[target["dtype"]]
                     now = after.get(target["id"])
@@ -1262,7 +1273,17 @@ def dict_checks(im, st, ops, k, label):
     return fails
 
 
+NUL_HISTORY = [["create", cps("t"), {"list": [jstr("x"), jstr("y")]}],
+               ["set", {"n": cps("t")}, {"list": [jstr("a\x00b")]}]]
+
+
 ORACLE_FIXED = [
+    ("nul-text", NUL_HISTORY),
+    # repaired in /repo (999983a, 563d8d3): overflow used to truncate / zero-pad, failed creates left a property
+    ("overflow-after-resize", [["create", cps("i"), {"list": [jint(1), jint(2), jint(3)]}],
+                               ["set", {"n": cps("i")}, {"list": [jint(5), jint(2 ** 63)]}],
+                               ["create", cps("j"), {"list": [jint(2 ** 63)]}],
+                               ["create", cps("u"), {"list": [jstr("a\x00b")]}], ["items"]]),
     # repaired in /repo (fix: create_property from a numpy array whose dtype differs ...): used to leave 'p' = (0, 0)
     ("create-from-int32-array", [["create", cps("p"), {"nd": {"dt": "int32", "shape": [2], "data": [{"i": "1"}, {"i": "2"}]}}],
                                  ["create", cps("q"), {"nd": {"dt": "ustr", "shape": [1], "data": [{"s": cps("x")}]}}],
@@ -1316,10 +1337,33 @@ def oracle(ctx, broken, hints):
     return {"evaluations": evals, "histories": len(histories), "failures": failures}
 
 
+def _has_nul_text(op):
+    inp = op[2] if len(op) > 2 else None
+    if not isinstance(inp, dict):
+        return False
+    vals = [inp["scalar"]] if "scalar" in inp else inp.get("list", [])
+    return any(v.get("c") in ("str", "npStr") and 0 in v.get("v", []) for v in vals)
+
+
 def matches_known(entry, failure):
-    """no open known finding for C10 (the UUID-shaped-name defect D6 was repaired in /repo, commit 2322936;
-    its histories stay in FIXED_HISTORIES / ORACLE_FIXED so that a regression is a VIOLATION)"""
+    """C10-nul-text-after-resize: a text value with an embedded NUL handed to the values setter / extend_values /
+    section[key] = ... of an existing text property is refused by h5py with ValueError *after* the dataset was
+    resized.  Only that failure on exactly such an operation matches; the UUID-shaped-name defect (D6) and the
+    create/overflow defects are repaired in /repo and their histories stay in the fixed lists."""
+    if entry.get("class") == "nul-text-refused-after-resize":
+        try:
+            op = failure.input["ops"][-1]
+        except Exception:
+            return False
+        return (failure.what == "a refused call changed stored values" and failure.observed == "ValueError"
+                and op[0] in ("set", "extend", "setitem") and _has_nul_text(op))
     return False
+
+
+def reproduces(ctx, entry):
+    if entry.get("class") == "nul-text-refused-after-resize":
+        return any(matches_known(entry, f) for f in check_history(ctx, NUL_HISTORY, 999999, "known"))
+    return True
 
 
 def replay_failure(ctx, fj):
